@@ -1062,3 +1062,82 @@ Proof.
     destruct (IH (cstep_m cfg ms ce) E2 E3 Ht) as (F1 & F2 & F3).
     rewrite F1, E1. auto.
 Qed.
+
+(** ** the worker's put: admission | store insert (| index registration) *)
+Lemma mworker2_admitted : forall cfg ms a k v id ttl obs, wdel ms = Some (WPAdmitted a k v id ttl obs) ->
+  mworker2 cfg ms =
+  match ttl with
+  | None => ({| win := with_base (win ms) (set_ack a Accepted (store_insert k v id None (mbase ms))); cps := cps ms; wdel := None |}, obs)
+  | Some t =>
+      match calc_expiry (now (mbase ms)) t with
+      | None => ({| win := with_base (win ms) (set_worker (mbase ms) Dead); cps := cps ms; wdel := None |}, [4; site_expiry_overflow])
+      | Some e =>
+          ({| win := {| base := store_insert k v id (Some e) (mbase ms); ups := ups (win ms);
+                        wpending := Some {| p_ack := a; p_id := id; p_exp := e; p_obs := obs |} |};
+              cps := cps ms; wdel := None |}, [9])
+      end
+  end.
+Proof. intros cfg ms a k v id ttl obs H. unfold mworker2. rewrite H. reflexivity. Qed.
+
+Lemma mworker2_window : forall cfg ms, wdel ms = None ->
+  mworker2 cfg ms = let '(w', ret) := wstep cfg (win ms) WPut2 in ({| win := w'; cps := cps ms; wdel := None |}, ret).
+Proof. intros cfg ms H. unfold mworker2. rewrite H. destruct (wstep cfg (win ms) WPut2). reflexivity. Qed.
+
+(* STATEMENT: the steps of the worker's put (admission | store insert, and with a time-to-live | index registration), back
+   to back, are the atomic worker step *)
+Lemma mput_atomic : forall cfg orc ms k v id h w ttl a q,
+  wdel ms = None -> wpending (win ms) = None -> worker (mbase ms) = Alive ->
+  queue (mbase ms) = (match ttl with None => CPut k v id h w | Some t => CPutTTL k v id h w t end, a) :: q ->
+  let r1 := mworker1 cfg ms orc in
+  let r2 := if stopped (snd r1) then mworker2 cfg (fst r1) else r1 in
+  let r3 := if stopped (snd r2) then mworker2 cfg (fst r2) else r2 in
+  let atomic := worker_step cfg orc (mbase ms) in
+  mbase (fst r3) = fst atomic /\ snd r3 = snd atomic /\ wdel (fst r3) = None /\ cps (fst r3) = cps ms /\
+  ups (win (fst r3)) = ups (win ms) /\ wpending (win (fst r3)) = None.
+Proof.
+  intros cfg orc ms k v id h w ttl a q Hwd Hwp Hwk Hq. cbv zeta.
+  assert (H1 : mworker1 cfg ms orc = mput1 cfg ms orc k v id h w ttl a q).
+  { unfold mworker1. rewrite Hwd, Hwp, Hwk, Hq. destruct ttl; reflexivity. }
+  rewrite H1. unfold mput1, worker_step. rewrite Hwk, Hq.
+  remember (set_queue (mbase ms) q) as s0 eqn:Hs0.
+  assert (Hatomic : forall X Y : state * list Z,
+            (match ttl with None => X | Some _ => Y end) = (match ttl with None => X | Some _ => Y end)) by reflexivity.
+  destruct ttl as [t|].
+  - (* with a time-to-live *)
+    destruct (amem k (store s0)) eqn:Hk.
+    { cbn [fst snd stopped mbase with_mbase win base with_base wdel cps ups wpending]. repeat split; try reflexivity; assumption. }
+    destruct (admission cfg orc k id h w s0) as [[r s1] vs] eqn:Ha.
+    destruct r as [x|site|why].
+    + destruct x as [|rs|rs|].
+      * cbn [fst snd stopped mbase with_mbase win base with_base wdel cps ups wpending]. repeat split; try reflexivity; assumption.
+      * (* accepted *)
+        cbn [fst snd stopped].
+        rewrite (mworker2_admitted cfg {| win := with_base (win ms) s1; cps := cps ms; wdel := Some (WPAdmitted a k v id (Some t) (5 :: 1 :: map sk_id vs)) |}
+                   a k v id (Some t) (5 :: 1 :: map sk_id vs) eq_refl).
+        change (mbase {| win := with_base (win ms) s1; cps := cps ms; wdel := Some (WPAdmitted a k v id (Some t) (5 :: 1 :: map sk_id vs)) |}) with s1.
+        destruct (calc_expiry (now s1) t) as [e|] eqn:He.
+        -- cbn [fst snd stopped win cps wdel with_base ups wpending].
+           rewrite mworker2_window by reflexivity. cbn [win]. rewrite wstep_put2_eq. cbn [wpending base ups].
+           unfold worker_half2. cbn [p_ack p_id p_exp p_obs fst snd mbase win base ups wpending cps wdel].
+           repeat split; reflexivity.
+        -- cbn [fst snd stopped mbase win base with_base wdel cps ups wpending]. repeat split; try reflexivity; assumption.
+      * cbn [fst snd stopped mbase with_mbase win base with_base wdel cps ups wpending]. repeat split; try reflexivity; assumption.
+      * cbn [fst snd stopped mbase with_mbase win base with_base wdel cps ups wpending]. repeat split; try reflexivity; assumption.
+    + cbn [fst snd stopped mbase with_mbase win base with_base wdel cps ups wpending]. repeat split; try reflexivity; assumption.
+    + cbn [fst snd stopped]. repeat split; try reflexivity; assumption.
+  - (* without *)
+    destruct (amem k (store s0)) eqn:Hk.
+    { cbn [fst snd stopped mbase with_mbase win base with_base wdel cps ups wpending]. repeat split; try reflexivity; assumption. }
+    destruct (admission cfg orc k id h w s0) as [[r s1] vs] eqn:Ha.
+    destruct r as [x|site|why].
+    + destruct x as [|rs|rs|].
+      * cbn [fst snd stopped mbase with_mbase win base with_base wdel cps ups wpending]. repeat split; try reflexivity; assumption.
+      * cbn [fst snd stopped].
+        rewrite (mworker2_admitted cfg {| win := with_base (win ms) s1; cps := cps ms; wdel := Some (WPAdmitted a k v id None (5 :: 1 :: map sk_id vs)) |}
+                   a k v id None (5 :: 1 :: map sk_id vs) eq_refl).
+        cbn [fst snd stopped mbase win base with_base wdel cps ups wpending]. repeat split; try reflexivity; assumption.
+      * cbn [fst snd stopped mbase with_mbase win base with_base wdel cps ups wpending]. repeat split; try reflexivity; assumption.
+      * cbn [fst snd stopped mbase with_mbase win base with_base wdel cps ups wpending]. repeat split; try reflexivity; assumption.
+    + cbn [fst snd stopped mbase with_mbase win base with_base wdel cps ups wpending]. repeat split; try reflexivity; assumption.
+    + cbn [fst snd stopped]. repeat split; try reflexivity; assumption.
+Qed.
